@@ -52,6 +52,7 @@ template<typename DT_, typename IT_> void inst()
   copy_ops<LAFEM::TupleFilter<UFB, MF>>();
   copy_ops<LAFEM::PowerFilter<UF, 2>>();
   copy_ops<LAFEM::FilterSequence<UF>>();
+  copy_ops<LAFEM::FilterSequence<UFB>>();
   copy_ops<Global::Filter<UF, LAFEM::VectorMirror<DT_, IT_>>>();
 }
 
